@@ -2,6 +2,7 @@
 from __future__ import annotations
 
 import json
+from .. import gen
 
 ID = "C17"
 LEAN_MODULE = "CKT.Props.C17"
@@ -28,7 +29,7 @@ RULE = ("Pauli lists on 0-8 qubits with all four phases; arbitrary index subsets
 ASSUMPTIONS = ["Qiskit PauliList label order (little endian) and group-phase convention are undone by the adapter",
                "qubit identity (Python object identity of Qubit) is modelled by integer tokens"]
 PH = ["", "-i", "-", "i"]
-LABELS = ["A", "B", 7, (1, 2), "xyz", -3, 2.5, frozenset([1])]
+LABELS = ["A", "part7", 1007, (1, 2), "xyz", -3, 2.5, frozenset([1])]
 
 
 def _plist(obs, n):
@@ -132,7 +133,8 @@ def run_real(kind, payload):
         return {"ok": _canon_paulis(out)}
     if kind == "decompose":
         pool = [LABELS[i] for i in payload["pool_idx"]]
-        labels = [pool[i] for i in payload["labels"]]
+        # equal labels on different qubits are equal objects, not the same object (computed per qubit)
+        labels = [gen.fresh(pool[i]) for i in payload["labels"]]
         out = decompose_observables(_plist(payload["obs"], payload["n"]), labels)
         return {"ok": [[payload["labels"][labels.index(l)], _canon_paulis(v)] for l, v in out.items()]}
     orig, final = _expand_objs(payload)
